@@ -206,7 +206,17 @@ class ConcApi(BaseApi):
     def check_fmod(self, oid, result, x, y, S):
         """result*S must equal fmod(x, y) where x, y are SI values and S the scale of the
         units the result is stored in"""
-        self.check(oid, self.eq(self.num(result) * S, self.fmod(x, y)))
+        x, y = self.num(x), self.num(y)
+        if y == 0:
+            raise CaseSkip("modulo by zero")
+        q = x / y
+        frac = q - (q.numerator // q.denominator)
+        # float % is discontinuous: only well-conditioned instances can be compared to rounding
+        if abs(q) > 10**6 or frac < Fraction(1, 10**6) or frac > 1 - Fraction(1, 10**6):
+            raise CaseSkip("ill-conditioned modulo (A1: floats are treated as reals)")
+        got = self.num(result) * S
+        exp = self.fmod(x, y)
+        self.check(oid, abs(got - exp) <= Fraction(self.rtol) * abs(y) * max(1, abs(q)))
 
     def lemma(self, name, fact):
         self.lemmas += 1
